@@ -97,6 +97,15 @@ def generate(seed, tier, batch):
         L = r.randint(1, 7 if not big else 12)
         ops = gen_ops(r, backend, n, L, measured=measured, free=free, feedforward=True,
                       allow_fock_meas=(backend == "fock"))
+        rs_ = random.Random("c09g:%d:%d" % (seed, s))
+        cand_ = [j_ for j_, o_ in enumerate(ops) if o_["op"] in ("Sgate", "Rgate", "Dgate", "BSgate", "Kgate", "Xgate", "Zgate", "Pgate", "S2gate", "CXgate", "CZgate", "Vgate")
+                 and o_.get("p") and not any(isinstance(e_, dict) and "meas" in json.dumps(e_) for e_ in o_["p"])]
+        if cand_ and rs_.random() < 0.3:
+            # one gate object the user keeps and applies twice: as g and as g.H (which share the parameter list), in either order
+            j_ = rs_.choice(cand_)
+            ops[j_]["obj"] = "g%d" % s
+            twin_ = dict(ops[j_], dag=not ops[j_].get("dag", False), m=rs_.sample(range(n), len(ops[j_]["m"])))
+            ops.insert(j_ + (1 if rs_.random() < 0.5 else 0), twin_)
         spec = {"ops": ops, "name": "p%d" % s}
         if s == 0:
             spec["n"] = n
